@@ -5,6 +5,7 @@ From RRSS Require Import Base.Outcome Base.Chars Base.F64 Base.F64Text Front.Ast
 From Coq Require Import Floats.SpecFloat.
 From RRSS Require Import Proofs.DigitBound Proofs.DigitLaws.
 From RRSS Require Import Proofs.FloatValid Proofs.LintValid.
+From RRSS Require Import Front.Token Front.Lexer Front.Parser Proofs.LintSource.
 Import ListNotations.
 
 (** the diagnostics returned are ordered by line *)
@@ -66,8 +67,17 @@ Theorem C19_lint_returns_diagnostics :
   forall p, Forall lv_block p -> exists ds, lint p = Ok ds.
 Proof. exact lint_ok. Qed.
 
+(** end to end: whatever the source text, if the parser accepts it the linter returns its diagnostics — no
+    error path, no underflow, no budget (lexer: number tokens carry parsed numerals; parsed numerals are binary64
+    data; the grammar copies literals from tokens; the folder keeps binary64 data; binary64 data print as decimal
+    digits) *)
+Theorem C19_lint_source_total :
+  forall prof src p, parse prof src = ParseOk p -> exists ds, lint p = Ok ds.
+Proof. exact lint_source_total. Qed.
+
 Print Assumptions C19_lint_total.
 Print Assumptions C19_lint_sorted.
 Print Assumptions C19_lint_complete_stable.
 Print Assumptions C19_numeric_diag_ok.
 Print Assumptions C19_lint_returns_diagnostics.
+Print Assumptions C19_lint_source_total.
